@@ -452,6 +452,7 @@ def build_evidence(module, tier, root_seed, outs, wall, reported, known_hits, he
         "known_findings_hit": {k: v[1] for k, v in known_hits.items()},
         "reported": reported,
         "harness_errors": len(herrs),
+        "slowest_runs_real_s": sorted(((o.get("real_s", 0), o["index"]) for o in outs), reverse=True)[:5],
     }
     extra = getattr(module, "evidence_extra", None)
     if extra is not None:
